@@ -9,6 +9,7 @@ open Nibiru
 structure DriverState where
   epochs : Epochs.State := []
   infl : Inflation.State := default
+  ovote : OracleVotes.State := {}
 
 def splitArgs (line : String) : List String :=
   (line.trimAscii.toString.splitOn " ").filter (· ≠ "")
@@ -20,6 +21,9 @@ def stepLine (st : DriverState) (line : String) : DriverState × String :=
     let (s', out) := Epochs.step st.epochs args
     ({ st with epochs := s' }, out)
   | "dec" :: args => (st, Dec.step args)
+  | "ovote" :: args =>
+    let (s', out) := OracleVotes.step st.ovote args
+    ({ st with ovote := s' }, out)
   | "oracle" :: args => (st, Oracle.step args)
   | "infl" :: args =>
     let (s', out) := Inflation.step st.infl args
